@@ -177,6 +177,19 @@ CLAIMED = {
         "NIP-01 serialisation'; a configuration without is_signed is outside the property's mechanism.",
         "DESIGN.md §6 C03",
     ),
+    "C15": (
+        "Lean 4 theorem on the decision logic of Authenticator.authenticate + differential correspondence under an injected clock + identity check through web.start_client",
+        "Proof: NostrRelay/Props/C15.lean proves that authenticate yields a token only for a dict that verifies as a "
+        "kind-22242 event, timestamped strictly within 600 s of now, with a relay tag whose url is one the relay answers to, "
+        "a challenge tag equal to this connection's challenge and no relay/challenge tag with another value; and that any "
+        "other outcome leaves the stored identity unchanged. Tie: the real authenticate (ok / AuthenticationError / other "
+        "exception) equals the model on the full neighbourhood of a valid answer for relay_urls unset / string / list. "
+        "Through the real start_client: a captured answer does not authenticate another connection; a failed AUTH after a "
+        "good one keeps the identity; challenges are distinct 128-bit hex strings.",
+        "Partial: unpredictability of secrets.token_hex is trusted, not modelled. Trusted: BIP-340/SHA-256; clock replaced "
+        "by a constant integer.",
+        "DESIGN.md §6 C15",
+    ),
 }
 
 NOT_YET = "not reached yet in this round (model/tie not built); see DESIGN.md §10 staging — no weaker technique is substituted"
